@@ -75,6 +75,22 @@ class SymEnv:
         self.vars.append("s_" + name)
         return SAngle.fresh(name)
 
+    def angle_value(self, name, lo=-180, hi=180):
+        """An input angle given by its numeric value in degrees (a solver real in (lo, hi]) together with its point on the
+        unit circle; value and point are linked by quadrant facts only (cos/sin of a free real has no SMT theory)."""
+        v = z3.Real(name)
+        self.vars.append(name)
+        a = SAngle.fresh(name)
+        a._v = v
+        a._vax = [z3.And(v > lo, v <= hi) if lo < 0 else z3.And(v >= lo, v <= hi)]
+        if (lo, hi) in ((-180, 180), (0, 180)):
+            a._vax.append(z3.And(z3.Implies(v == 0, z3.And(a.c == 1, a.s == 0)), z3.Implies(z3.And(a.c == 1, a.s == 0), v == 0),
+                                 z3.Implies(v == 180, z3.And(a.c == -1, a.s == 0)), z3.Implies(z3.And(a.c == -1, a.s == 0), v == 180),
+                                 z3.Implies(z3.And(v > 0, v < 180), a.s > 0), z3.Implies(v < 0, a.s < 0),
+                                 z3.Implies(a.s > 0, z3.And(v > 0, v < 180)), z3.Implies(a.s < 0, v < 0)))
+        self.ctx.assume(a._vax[0])
+        return a
+
     def boolean(self, name):
         self.vars.append(name)
         return SBool(z3.Bool(name))
@@ -213,6 +229,12 @@ class ConcEnv:
         if abs(c * c + s * s - 1) > 1e-6:
             raise SkipPath(name)
         return math.degrees(math.atan2(s, c))
+
+    def angle_value(self, name, lo=-180, hi=180):
+        v = float(self._get(name, 0.0))
+        if v < lo - 1e-12 or v > hi + 1e-12:
+            raise SkipPath(name)
+        return v
 
     def boolean(self, name):
         return bool(self._get(name, False))
@@ -473,13 +495,42 @@ def run_path(harness, params, prefix, opts):
             if z3.is_true(cond):
                 out["obligations"].append({"name": name, "result": "unsat", "solver": "simplify", "seconds": 0.0})
                 continue
-            rel, rest = solve.slice_for(pc, [cond])
-            r, m, info = solve.check(rel + [z3.Not(cond)], timeout=otimeout, want_model=True)
+            r = None
+            # cheapest first: only the assumptions that talk about nothing but the obligation's own symbols
+            gs = solve._syms(cond)
+            sub = [a for a in pc if solve._syms(a) and solve._syms(a) <= gs]
+            if sub and len(sub) < len(pc):
+                r_s, _, info = solve.check(sub + [z3.Not(cond)], timeout=min(otimeout, 10.0))
+                if r_s == "unsat":
+                    r, m = "unsat", None
+                    rel, rest = sub, []
+            if r is None and ctx.__dict__.get("heavy"):
+                rel_l, _ = solve.slice_for(ctx.pc_light(), [cond])
+                r_l, _, info = solve.check(rel_l + [z3.Not(cond)], timeout=otimeout)
+                if r_l == "unsat":
+                    r, m = "unsat", None
+                    rel, rest = rel_l, []
+            if r is None:
+                rel, rest = solve.slice_for(pc, [cond])
+                r, m, info = solve.check(rel + [z3.Not(cond)], timeout=otimeout, want_model=True)
             if r == "sat" and m is not None and rest:
                 r_rest, m_rest, _ = solve.check(rest, timeout=otimeout, want_model=True)
                 if m_rest:
                     for k_, v_ in m_rest.items():
                         m.setdefault(k_, v_)
+            if r == "unknown" and sub and len(sub) < len(pc):
+                # counterexample search in two steps: a model of the obligation's own (cheap) assumptions, then the rest of
+                # the path condition with the obligation's symbols pinned to it
+                r_s2, m_s2, _ = solve.check(sub + [z3.Not(cond)], timeout=min(otimeout, 10.0), want_model=True)
+                if r_s2 == "sat" and m_s2:
+                    fv = solve.free_vars(sub + [cond])
+                    pins = []
+                    for nm, val in m_s2.items():
+                        if nm in fv and not isinstance(val, bool):
+                            pins.append(fv[nm] == (z3.RealVal(str(val)) if z3.is_real(fv[nm]) else z3.IntVal(int(val))))
+                    r_p, m_p, info_p = solve.check(rel + pins + [z3.Not(cond)], timeout=min(otimeout, 20.0), want_model=True)
+                    if r_p == "sat" and m_p is not None:
+                        r, m, info = "sat", m_p, info_p
             ob_spent += info.get("seconds", 0.0)
             ob = {"name": name, "result": r, "solver": info.get("solver"), "seconds": round(info.get("seconds", 0.0), 4)}
             if r == "sat":
